@@ -148,7 +148,7 @@ def run_stream(state, stream, mode=0, file_backed=True):
         ae = applicationentity.ClientAE('VERIF')
         kw = dict(store_in_file=frozenset([convs.STORE_UID]), get_file_cb=ae.get_file,
                   accepted_contexts=contexts())
-    sim = simnet.Sim(role, actions, budget=6000 + 60 * len(actions), **kw)
+    sim = simnet.Sim(role, actions, budget=6000 + 60 * len(actions) + 8 * len(stream), **kw)
     sim.run()
     # state reached by the prefix (sanity of the harness, not of the library)
     snaps = [s for s in sim.snaps if s['next'] == n_prefix]
